@@ -550,7 +550,10 @@ def getitem(arr, key):
             s0 = mapping((0,))[0]
             s1 = mapping((1,))[0]
             aff = (arr.affine[0] + arr.affine[1] * s0, arr.affine[1] * (s1 - s0))
-        return SArr(out_shape, None, arr.dtype, base=root, vmap=vm, affine=aff)
+        r = SArr(out_shape, None, arr.dtype, base=root, vmap=vm, affine=aff)
+        if arr.base is None and not any(it[0] == 'fancy' for it in _):
+            r.inv_region = _make_invert(_)       # writes through this view reach the root array
+        return r
     snap = arr._snapshot()
     if len(out_shape) == 0:
         return snap(mapping(()))
@@ -561,39 +564,8 @@ def _affine_of(a):
     return a.affine
 
 
-def setitem(arr, key, value):
-    """arr[key] = value with numpy semantics (broadcasting of value)."""
-    root = arr.root()
-    if isinstance(key, SArr) and key.dtype == 'bool':
-        mask = key
-        if isinstance(value, SArr):
-            raise Unsupported("mask assignment of array value")
-        sh, mm, _ = broadcast_shapes(mask.shape, arr.shape)
-        tgt = arr
-
-        def inreg(idx):
-            return mask.at(idx)
-        _write(tgt, inreg, lambda idx: value)
-        return
-    out_shape, mapping, kind, items = parse_index(arr, key)
-    # numpy casts the assigned value to the array's dtype: complex -> float drops the imaginary part (ComplexWarning),
-    # float -> int truncates
-    value = _cast_for_store(arr, value)
-    # value accessor over out idx
-    if isinstance(value, SArr):
-        vshape, mv, _ = broadcast_shapes(value.shape, out_shape)
-        # value must broadcast to out_shape exactly
-        nd_out = len(out_shape)
-
-        def val_at(oidx):
-            return value.at(_sub_idx(oidx, _bmask(value.shape, out_shape), nd_out, value.ndim))
-        vsnap_src = value
-    else:
-        def val_at(oidx):
-            return value
-    # invert mapping: for base idx b, find out idx o with mapping(o) == b
-    nd = arr.ndim
-
+def _make_invert(items):
+    """Inverse of a parsed index: base index -> (condition that it is addressed, out index)."""
     def invert(bidx):
         """Return (cond, oidx) such that cond <=> exists o in range: mapping(o)==bidx."""
         conds = []
@@ -675,9 +647,62 @@ def setitem(arr, key, value):
             else:
                 final.append(r)
         return And(*conds), tuple(final)
+    return invert
+
+
+def setitem(arr, key, value):
+    """arr[key] = value with numpy semantics (broadcasting of value)."""
+    root = arr.root()
+    if isinstance(key, SArr) and key.dtype == 'bool':
+        mask = key
+        if isinstance(value, SArr):
+            raise Unsupported("mask assignment of array value")
+        sh, mm, _ = broadcast_shapes(mask.shape, arr.shape)
+        tgt = arr
+
+        def inreg(idx):
+            return mask.at(idx)
+        _write(tgt, inreg, lambda idx: value)
+        return
+    out_shape, mapping, kind, items = parse_index(arr, key)
+    # numpy casts the assigned value to the array's dtype: complex -> float drops the imaginary part (ComplexWarning),
+    # float -> int truncates
+    value = _cast_for_store(arr, value)
+    # value accessor over out idx
+    if isinstance(value, SArr):
+        vshape, mv, _ = broadcast_shapes(value.shape, out_shape)
+        # value must broadcast to out_shape exactly
+        nd_out = len(out_shape)
+
+        def val_at(oidx):
+            return value.at(_sub_idx(oidx, _bmask(value.shape, out_shape), nd_out, value.ndim))
+        vsnap_src = value
+    else:
+        def val_at(oidx):
+            return value
+    # invert mapping: for base idx b, find out idx o with mapping(o) == b
+    nd = arr.ndim
+
+    invert = _make_invert(items)
 
     if arr.base is not None:
-        raise Unsupported("item assignment through a view")
+        inv_region = getattr(arr, 'inv_region', None)
+        if inv_region is None:
+            raise Unsupported("item assignment through a view")
+        # a basic-index view of a root array: base index -> view index -> assigned index
+
+        def inreg_b(bidx):
+            c1, vidx = inv_region(bidx)
+            c2, _ = invert(vidx)
+            return And(c1, c2)
+
+        def newval_b(bidx):
+            _, vidx = inv_region(bidx)
+            _, o = invert(vidx)
+            return val_at(o)
+        _write(arr.base, inreg_b, newval_b)
+        arr.writes += 1
+        return
 
     def inreg(bidx):
         c, _ = invert(bidx)
